@@ -151,6 +151,56 @@ def two64 : Nat := 18446744073709551616
 def unsignedStepBytes (sb : Int) (sz c : Nat) : Nat :=
   (c * ((sb % (two64 : Int)).toNat / sz) * sz) % two64
 
+/-! ### Python-side normalisation: which numpy call stands between the user's array and a native guard
+
+The native entry points of `_labeled`, `_histogram`, `_convex` demand `PyArray_ISCARRAY` (C-contiguous,
+aligned, writeable).  What the wrapper calls first decides whether a Fortran / strided / read-only view
+of valid data reaches them in acceptable form or turns into an exception. -/
+
+/-- the flags of an array that matter here; `fOrder`: the axis order is Fortran-like (what
+`order='K'` preserves in a copy) -/
+structure Flags where
+  ccontig   : Bool
+  aligned   : Bool
+  writeable : Bool
+  fOrder    : Bool
+deriving DecidableEq, Repr
+
+/-- a freshly allocated C-ordered array -/
+def Flags.fresh : Flags := { ccontig := true, aligned := true, writeable := true, fOrder := false }
+
+/-- `PyArray_ISCARRAY` -/
+def Flags.isCArray (f : Flags) : Bool := f.ccontig && f.aligned && f.writeable
+
+inductive Norm
+  | ascontiguousarray     -- `np.ascontiguousarray(a)`: the array itself when already C-contiguous
+  | requireCAW            -- `np.require(a, requirements='CAW')`
+  | requireCW             -- `np.require(a, requirements='CW')`
+  | arrayC                -- `np.array(a, order='C')`: always a fresh C-ordered copy
+  | arrayK                -- `np.array(a)` (order='K'): a fresh copy that keeps a Fortran-like axis order
+  | asanyarray            -- no normalisation
+deriving DecidableEq, Repr
+
+def Norm.apply : Norm → Flags → Flags
+  | .ascontiguousarray, f => if f.ccontig then f else Flags.fresh
+  | .requireCAW, f => if f.ccontig && f.aligned && f.writeable then f else Flags.fresh
+  | .requireCW, f => if f.ccontig && f.writeable then f else Flags.fresh
+  | .arrayC, _ => Flags.fresh
+  | .arrayK, f => { Flags.fresh with ccontig := !f.fOrder, fOrder := f.fOrder }
+  | .asanyarray, f => f
+
+def Norm.ofString : String → Option Norm
+  | "ascontiguousarray" => some .ascontiguousarray
+  | "require:CAW" => some .requireCAW
+  | "require:CW" => some .requireCW
+  | "array:C" => some .arrayC
+  | "array:K" => some .arrayK
+  | "asanyarray" => some .asanyarray
+  | _ => none
+
+/-- does the composition *normalisation → native ISCARRAY guard* accept an array with these flags? -/
+def wrapperAccepts (n : Norm) (f : Flags) : Bool := (n.apply f).isCArray
+
 /-! ### driver -/
 
 def viewOf (a : Args) : View :=
@@ -184,6 +234,13 @@ def handle (a : Args) : String :=
     let v := viewOf a
     let ks := List.range (shapeSize v.shape)
     s!"old={showInts (ks.map (fun p => atFlatOldGo v.shape.reverse v.strides.reverse p v.base))} spec={showInts (ks.map (fun k => v.addr (unravel v.shape k)))}"
+  | "norm" =>
+    match Norm.ofString (a.str "norm") with
+    | none => "error=unknown-norm"
+    | some n =>
+      let f : Flags := { ccontig := a.nat "c" == 1, aligned := a.nat "al" == 1, writeable := a.nat "w" == 1, fOrder := a.nat "fo" == 1 }
+      let r := n.apply f
+      s!"c={if r.ccontig then 1 else 0} al={if r.aligned then 1 else 0} w={if r.writeable then 1 else 0} accepts={if wrapperAccepts n f then 1 else 0}"
   | "ustep" =>
     s!"bytes={unsignedStepBytes (a.int "sb") (a.nat "sz") (a.nat "c")}"
   | k => s!"error=unknown-kind-{k}"
